@@ -132,10 +132,14 @@ class Explorer:
         if z3.is_false(c):
             return False
         # context-free interval pre-check (zx/ranges.py): a condition that holds / fails for every assignment is no decision at all
-        try:
-            iv = _ranges.truth(c)
-        except Exception:   # noqa  (the pre-check is an optimisation only)
-            iv = None
+        # (only at ambient widths above 64 bits, where a solver query under a path condition with wide integers is expensive; at 64 bits the z3 API walk
+        # of the pre-check costs more than the query it saves)
+        iv = None
+        if self.W > 64:
+            try:
+                iv = _ranges.truth(c)
+            except Exception:   # noqa  (the pre-check is an optimisation only)
+                iv = None
         if iv is not None:
             self.range_decided = getattr(self, 'range_decided', 0) + 1
             return iv
